@@ -194,7 +194,7 @@ TEnd ==
 
 StutterNames == {"Open", "ManifestSnapshot",
                  "CompactCall", "CompactRet", "FlushCall", "FlushRet", "Close", "Closing",
-                 "CloseRet", "RecoverWal", "BadState", "Fault", "BgBegin",
+                 "CloseRet", "RecoverWal", "BadState", "Fault", "BgBegin", "DescrCall", "DescrRet",
                  "BgEnd"}
 
 TStutter ==
